@@ -19,7 +19,8 @@ META = {
     "by the term language), scaling all turn rates of the links leaving the upstream node by c leaves every "
     "next state unchanged; on six concrete networks: renaming all elements and reversing the insertion "
     "order of nodes and edges leaves every element's next state the same term; no element class defines "
-    "__eq__/__hash__",
+    "__eq__/__hash__"
+    "; all elements sharing one name with caller-supplied variables; state dictionaries not aliased to caller dictionaries; constructors do not take the truth value of a parameter",
     "explanation": "Collections of entering/leaving links are abstract families; the only operations the "
     "interpretation accepts on them are membership-independent (len, any, iteration into a family consumed by "
     "a sum). Picking `first`/`next(iter())` from a family with several members, or reordering one, is "
